@@ -268,33 +268,69 @@ def rule_python_snapshot_pickup(ctx):
                     yield from blocks(sub)
 
     SYNC = {'synchronize', 'integrate', 'step', 'steps'}
+    # integrators whose init refuses keep_unsynchronized together with safe_mode (taken from the C sources)
+    refuses = {}
+    for cfile, sub in (('integrator_whfast.c', 'ri_whfast'), ('integrator_saba.c', 'ri_saba')):
+        tu = cfront.load_tu(cfile)
+        for fname, f_ in tu.funcs.items():
+            for ifs in walk(cfront.body(f_)):
+                if ifs.get('kind') == 'IfStmt':
+                    c = render(ifs['inner'][0]).replace(' ', '')
+                    if sub + '.keep_unsynchronized==1' in c and sub + '.safe_mode==1' in c and any(callee_name(e) == 'reb_simulation_error' for e in walk(ifs['inner'][1]) if e.get('kind') == 'CallExpr'):
+                        refuses[sub] = 'src/%s:%s %s' % (cfile, line_of(ifs), fname)
+    anchor(set(refuses) == {'ri_whfast', 'ri_saba'}, 'keep_unsynchronized/safe_mode compatibility tests in the WHFast and SABA init')
+
+    def setters_in(st, guard, out):
+        """assignments to *.keep_unsynchronized in st, with the integrator names the enclosing ifs test for."""
+        if isinstance(st, ast.Assign):
+            for t in st.targets:
+                if isinstance(t, ast.Attribute) and t.attr == 'keep_unsynchronized':
+                    out.append((ast.unparse(t.value), guard, st.lineno))
+        elif isinstance(st, ast.If):
+            g = set(guard)
+            for c in ast.walk(st.test):
+                if isinstance(c, ast.Compare) and isinstance(c.left, ast.Attribute) and c.left.attr == 'integrator' and len(c.ops) == 1 and isinstance(c.ops[0], ast.Eq) \
+                        and isinstance(c.comparators[0], ast.Constant):
+                    g.add(c.comparators[0].value)
+            for b in st.body:
+                setters_in(b, frozenset(g), out)
+            for b in st.orelse:
+                setters_in(b, guard, out)
+
     for blk in blocks(fn.body):
-        setters = {}
         first_sync = None
         for i, st in enumerate(blk):
-            if isinstance(st, ast.Assign):
-                for t in st.targets:
-                    if isinstance(t, ast.Attribute) and t.attr == 'keep_unsynchronized':
-                        setters.setdefault(ast.unparse(t.value), i)
-            for c in ast.walk(st) if not isinstance(st, (ast.If, ast.For, ast.While, ast.With, ast.Try)) else []:
+            if isinstance(st, (ast.If, ast.For, ast.While, ast.With, ast.Try)):
+                continue
+            for c in ast.walk(st):
                 if isinstance(c, ast.Call) and isinstance(c.func, ast.Attribute) and c.func.attr in SYNC and first_sync is None:
                     first_sync = (i, c.func.attr, st.lineno)
-        if first_sync is None and not setters:
-            continue
         if first_sync is None:
+            continue
+        before, after = [], []
+        for i, st in enumerate(blk):
+            setters_in(st, frozenset(), before if i < first_sync[0] else after)
+        if not before and not after:
             continue
         n += 1
         where = 'rebound/simulationarchive.py:%s Simulationarchive.getSimulation' % first_sync[2]
-        owners = {k.split('.')[-1] for k in setters}
+        owners = {k.split('.')[-1] for k, g, ln in before}
         for want in ('ri_whfast', 'ri_saba'):
             if want not in owners:
-                ctx.report('R09.7', 'getSimulation:%s:missing' % want, where, 'the branch calls %s() without setting %s.keep_unsynchronized: the snapshot is synchronised for good and the continued run is not bit-identical' % (first_sync[1], want))
-        for k, i in setters.items():
-            if i > first_sync[0]:
-                ctx.report('R09.7', 'getSimulation:%s:order' % k.split('.')[-1], where,
-                           '%s.keep_unsynchronized is assigned after %s() has already run: the synchronisation overwrites the cached mid-step state before the switch takes effect' % (k, first_sync[1]))
+                ctx.report('R09.7', 'getSimulation:%s:missing' % want, where, 'the branch calls %s() without setting %s.keep_unsynchronized before it: the snapshot is synchronised for good and the continued run is not bit-identical' % (first_sync[1], want))
+        for k, g, ln in after:
+            ctx.report('R09.7', 'getSimulation:%s:order' % k.split('.')[-1], where,
+                       '%s.keep_unsynchronized is assigned after %s() has already run: the synchronisation overwrites the cached mid-step state before the switch takes effect' % (k, first_sync[1]))
+        # R09.8: the switch may only be raised on an integrator whose safe_mode the branch has looked at
+        for k, g, ln in before:
+            sub = k.split('.')[-1]
+            n += 1
+            if sub in refuses and sub[3:] not in g:
+                ctx.report('R09.8', 'getSimulation:%s:unguarded' % sub, 'rebound/simulationarchive.py:%s Simulationarchive.getSimulation' % ln,
+                           '%s.keep_unsynchronized is set whatever integrator the snapshot uses, but %s refuses keep_unsynchronized=1 while %s.safe_mode is 1 (only the safe_mode of the integrator in use is examined): a snapshot of another Wisdom-Holman integrator cannot be continued'
+                           % (k, refuses[sub], sub))
         samples.append('%s: %s() after keep_unsynchronized of %s' % (where, first_sync[1], sorted(owners)))
-    ctx.covered('R09.7', 'Python getSimulation: keep_unsynchronized of WHFast and SABA set before the first synchronising call in every branch', n, floor=2, samples=samples)
+    ctx.covered('R09.7', 'Python getSimulation: keep_unsynchronized of WHFast and SABA set before the first synchronising call in every branch, and only on the integrator whose safe_mode was examined (R09.8)', n, floor=6, samples=samples)
 
 
 def run(ctx):
